@@ -9,6 +9,7 @@ import (
 	"fmt"
 	"io"
 	"os"
+	"sort"
 	"strings"
 	"testing"
 	"time"
@@ -222,7 +223,7 @@ var c09EdgeInts = []string{"0", "2147483647", "2147483648", "4294967295", "42949
 
 // sweep sends the listing requests of every kind with small page sizes and the markers the
 // server hands back, and demands a well-formed answer for each.
-func (e *c09Env) sweep(cs c09Case) []disc {
+func (e *c09Env) sweep(cs c09Case) (ds []disc) {
 	buckets := []string{"bk0", "bk1"}
 	if e.st.Kind.IsSingle() {
 		buckets = []string{backends.SingleBucketName}
@@ -240,6 +241,44 @@ func (e *c09Env) sweep(cs c09Case) []disc {
 		}
 		return r, d
 	}
+	// every key the history touched, addressed by the version ID "null" (whatever its history: stored
+	// before or after versioning was enabled, once or often, deleted or not)
+	nullKeys := func(b string) []string {
+		var ks []string
+		if mb := e.r.M.Buckets[b]; mb != nil {
+			for k := range mb.Keys {
+				ks = append(ks, k)
+			}
+		}
+		sort.Strings(ks)
+		return ks
+	}
+	for _, b := range buckets {
+		for _, k := range nullKeys(b) {
+			for _, m := range []string{"GET", "HEAD"} {
+				if _, d := check(lreq{Method: m, Bucket: b, Key: k, Query: s3x.Q("versionId", "null"), Family: "nullVersion"}); len(d) > 0 {
+					return d
+				}
+			}
+		}
+	}
+	defer func() {
+		if len(ds) > 0 {
+			return
+		}
+		for _, b := range buckets {
+			for i, k := range nullKeys(b) {
+				l := lreq{Method: "DELETE", Bucket: b, Key: k, Query: s3x.Q("versionId", "null"), Family: "nullVersion"}
+				if i%2 == 1 {
+					l = lreq{Method: "POST", Bucket: b, Query: s3x.Q("delete", s3x.Bare), Body: []byte("<Delete><Object><Key>" + xmlEsc(k) + "</Key><VersionId>null</VersionId></Object></Delete>"), Family: "nullVersion"}
+				}
+				if _, d := check(l); len(d) > 0 {
+					ds = d
+					return
+				}
+			}
+		}
+	}()
 	for _, b := range buckets {
 		// a page size of zero together with a position (empty, or before the first key)
 		for _, q := range [][][2]string{s3x.Q("max-keys", "0", "marker", ""), s3x.Q("max-keys", "0", "marker", "0"), s3x.Q("list-type", "2", "max-keys", "0", "start-after", "0"), s3x.Q("list-type", "2", "max-keys", "0", "continuation-token", "MA=="),
